@@ -130,7 +130,7 @@ def gen_case(rng, tier, index):
     case["invalid"] = rng.choice([None, None, None, "foreign", "noreferent",
                                   "twice"])
     if rng.random() < 0.25 and g.code_blocks:
-        blk = rng.choice(g.code_blocks)
+        blk = rng.choice([b for b in g.code_blocks if b["items"]])
         case["edits"] = [{"op": "ins", "b": blk["id"], "i": 0,
                           "p": {"lines": [{"k": "mark",
                                            "imm": g.mark(0)}]}}]
